@@ -324,7 +324,10 @@ impl Display for WeekDayRange {
                     write!(f, "-{}", wday_str(*range.end()))?;
                 }
 
-                if nth_from_start.contains(&false) || nth_from_end.contains(&false) {
+                // An offset can only be written after a list of positions: print the full
+                // list rather than dropping it (`Mo[3-1] +1 day` is read as every Monday).
+                if nth_from_start.contains(&false) || nth_from_end.contains(&false) || *offset != 0
+                {
                     let pos_weeknum_iter = nth_from_start
                         .iter()
                         .enumerate()
